@@ -112,9 +112,56 @@ def run(ctx, model_ok):
                                           'paths': [[v, t.hex()] for v, t in m[4]]},
                                 'expected': {'under a UTF-8 locale': txt(a)}, 'actual': {'under LC_ALL=C, UTF-8 mode off': txt(b)},
                                 'why': 'the rendering changes with the locale / filesystem encoding of the host interpreter'})
+    # the string-hash seed is host state too: set / dict orders must not reach the text
+    sub = [m for m, k in zip(metas, kinds) if k == 'host-free-row'][:400]
+    import re as _re
+    for r in R.rows:                                       # open-flag words with both access-mode bits set, and dense words
+        mm = _re.search(r'LOpenFlags .*?\(W EFirst (\d)\)', R.toks_text(r[1]))
+        if mm and r[1] in R.code_of:
+            for v in (3, 0x603, 7, 0xffffffff):
+                first = dc.in_domain_first(R, r[1], rng)
+                first[int(mm.group(1))] = v
+                sub.append((r[1], first, [0, 3, 0, 0], 7, [(5, b'/tmp/x')] if R.uses_paths(r[1]) else [], []))
+    h0 = dc.run_windows(R, sub, env_extra={'PYTHONHASHSEED': '0'})['results']
+    for seed in ('1', '7'):
+        h1 = dc.run_windows(R, sub, env_extra={'PYTHONHASHSEED': seed})['results']
+        ctx.evaluations += len(sub)
+        for m, a, b in zip(sub, h0, h1):
+            ctx.count('hash-seed')
+            if a != b:
+                ctx.failing.append({'input': {'kind': 'hash-seed', 'key': m[0], 'first': m[1], 'last': m[2]},
+                                    'expected': {'PYTHONHASHSEED=0': txt(a)}, 'actual': {'PYTHONHASHSEED=' + seed: txt(b)},
+                                    'why': 'the rendering changes with the string-hash seed of the host interpreter'})
+    # optional third-party modules a host may or may not have (stand-in: tools/harness/stubs): the formatted lines do not
+    # change with their presence
+    import os
+    from ..harness.streams import StreamGen
+    from . import pairing_common as pc
+    sg = StreamGen(pc.Universe())
+    lreqs = []
+    for _ in range(4 if ctx.quick() else 40):
+        threads, evs = sg.gen(rng, n_ops=10, rich=True)
+        threads = [(t, p, rng.choice(['漢字プロセス', 'e\u0301clair', 'ascii', nm.decode() or 'x']).encode()[:19].decode('utf-8', 'ignore').encode())
+                   for t, p, nm in threads]
+        for cfg in ({'color': False}, {'color': False, 'show_tid': True}):
+            lreqs.append({'file': sg.v2(threads, evs).hex(), 'cfg': cfg, 'calls': ['formatted_traces', 'formatted_kevents', 'formatted_callstacks']})
+    stubs = os.path.join(os.path.dirname(os.path.dirname(os.path.abspath(__file__))), 'harness', 'stubs')
+    la = vlib.run_impl('run_api.py', {'cases': lreqs})['results']
+    lb = vlib.run_impl('run_api.py', {'cases': lreqs}, env_extra={'PYTHONPATH': '/repo:' + stubs})['results']
+    ctx.evaluations += 2 * len(lreqs)
+    for rq, a, b in zip(lreqs, la, lb):
+        ctx.count('optional-module')
+        for ca, cb in zip(a, b):
+            if ca['items'] != cb['items'] or ca['err'] != cb['err']:
+                j = next((k for k in range(min(len(ca['items']), len(cb['items']))) if ca['items'][k] != cb['items'][k]), 0)
+                ctx.failing.append({'input': {'kind': 'optional-module', 'file': rq['file'], 'cfg': rq['cfg'], 'call': ca['call']},
+                                    'expected': {'without the module': ca['items'][j:j + 1] or ca['err']},
+                                    'actual': {'with a wcwidth module importable': cb['items'][j:j + 1] or cb['err']},
+                                    'why': 'the formatted lines change with the presence of an optional third-party module on the host'})
+                break
     ctx.rule = ('every errno 0..109,150,200 (quick: 15 codes) through two decoders, signals 0..64 (quick 0..32), address families '
                 '0..45 x socket types, socket-option levels {1, 0xffff, 6, 17} x option names, and 25/120 rows that do not read the '
-                'host; each rendered with the real host modules AND with Darwin stand-ins; plus path-taking rows with non-ASCII paths under a UTF-8 locale and under LC_ALL=C with UTF-8 mode off; non-trivial = distinct input whose two '
+                'host; each rendered with the real host modules AND with Darwin stand-ins; plus path-taking rows with non-ASCII paths under a UTF-8 locale and under LC_ALL=C with UTF-8 mode off; host-free rows under three string-hash seeds; formatted lines with and without an importable wcwidth module; non-trivial = distinct input whose two '
                 'renderings differ')
     ctx.samples = [{'key': metas[20][0], 'last': metas[20][2], 'on_this_host': txt(real['results'][20]),
                     'on_darwin_tables': txt(darw['results'][20])}]
